@@ -717,6 +717,46 @@ fn run(ctx: &mut Ctx) {
             aged_draw(ctx, k, opts);
         }
     }
+    // (d6) the input ENDS in the middle of a hostile line (no final line feed): the reader still reaches
+    // end-of-file and returns
+    {
+        let tails: Vec<(&str, Vec<u8>)> = vec![
+            ("70 KiB of A", vec![b'A'; 70 * 1024]),
+            ("70 KiB of 0xFF", vec![0xFF; 70 * 1024]),
+            ("300 KiB of hex digits", vec![b'8'; 300 * 1024]),
+            ("64 KiB exactly", vec![b'z'; 65536]),
+            ("64 KiB + 1", vec![b'z'; 65537]),
+            ("1 MiB of blanks", vec![b' '; 1 << 20]),
+            ("one byte", vec![b'*']),
+            ("lone 0xC3", vec![0xC3]),
+            ("CR only", vec![b'\r']),
+            ("27 digits", b"8D4CA2D6231493B4D46820EEB81".to_vec()),
+        ];
+        for (ti, (tname, tail)) in tails.iter().enumerate() {
+            for (ci, cfg) in cfgs.iter().enumerate() {
+                job += 1;
+                if !ctx.mine(job) {
+                    continue;
+                }
+                let mut content = sentinel_line();
+                content.push(b'\n');
+                content.extend_from_slice(tail);
+                let t = new_table();
+                crate::run::describe_current(&format!("C01 input ending with an unterminated line: {tname}, cfg [{}]", cfg.label()));
+                let o = run_file(cfg, &content, &t);
+                ctx.eval();
+                ctx.count("unterminated-hostile-last-line");
+                if !o.is_ok() || !snapshot(&t).iter().any(|r| r.key == SENT) {
+                    ctx.violation(
+                        &format!("C01/unterminated-last-line/{}/{}", cfg.label(), crate::profile_name()),
+                        tname,
+                        || format!("a well-formed line, then '{tname}' without a final line feed, cfg [{}], {} build: {}", cfg.label(), crate::profile_name(), o.label()),
+                        || json!({"kind": "tail", "tail": ti, "cfgi": ci, "profile": crate::profile_name()}),
+                    );
+                }
+            }
+        }
+    }
     // (d5) odd observer strings and the largest filter values, the table drawn after every frame of a stream
     // that contains decodable positions (main() hands the -O string to set_observer_coords_from_str)
     for (k, o) in ["abc", "", "1", "1,2,3", "NaN,NaN", "1e999,0", ",", "52.6,", ",-8", "52.6;-8.6", "  ", "91,181", "-0,-0", "inf,-inf", "1,2,", "1e-320,1e-320", "\u{e9},\u{e9}", "52.6,-8.6\0"].iter().enumerate() {
@@ -876,6 +916,22 @@ fn replay(ctx: &mut Ctx, case: &Value) {
     let o: Vec<&str> = opts.iter().map(|s| s.as_str()).collect();
     let bytes = |v: &Value| -> Vec<u8> { v.as_array().map(|a| a.iter().filter_map(|x| x.as_u64().map(|b| b as u8)).collect()).unwrap_or_default() };
     match case.get("kind").and_then(|x| x.as_str()) {
+        Some("tail") => {
+            // (the list is rebuilt here; wedges are not replayed)
+            let ti = case.get("tail").and_then(|x| x.as_u64()).unwrap_or(0) as usize;
+            let tails: Vec<Vec<u8>> = vec![vec![b'A'; 70 * 1024], vec![0xFF; 70 * 1024], vec![b'8'; 300 * 1024], vec![b'z'; 65536], vec![b'z'; 65537], vec![b' '; 1 << 20], vec![b'*'], vec![0xC3], vec![b'\r'], b"8D4CA2D6231493B4D46820EEB81".to_vec()];
+            let cfgs: Vec<Cfg> = [&[][..], &["-U"][..], &["-R"][..], &["-U", "-R"][..]].iter().map(|o| Cfg::new(o)).collect();
+            let cfg = &cfgs[case.get("cfgi").and_then(|x| x.as_u64()).unwrap_or(0) as usize % 4];
+            let mut content = sentinel_line();
+            content.push(b'\n');
+            content.extend_from_slice(&tails[ti % tails.len()]);
+            let t = new_table();
+            let o2 = run_file(cfg, &content, &t);
+            crate::run::say(&format!("a well-formed line, then {} bytes without a final line feed, cfg [{}]: {}", tails[ti % tails.len()].len(), cfg.label(), o2.label()));
+            if !o2.is_ok() || !snapshot(&t).iter().any(|r| r.key == SENT) {
+                ctx.violation("C01/unterminated-last-line", "replay", || o2.label(), || case.clone());
+            }
+        }
         Some("observer") => {
             let all = ["abc", "", "1", "1,2,3", "NaN,NaN", "1e999,0", ",", "52.6,", ",-8", "52.6;-8.6", "  ", "91,181", "-0,-0", "inf,-inf", "1,2,", "1e-320,1e-320", "\u{e9},\u{e9}", "52.6,-8.6\0"];
             let o = all[case.get("k").and_then(|x| x.as_u64()).unwrap_or(0) as usize % all.len()];
